@@ -55,7 +55,7 @@ def run_case(seed, tid):
         wsm = float(F(1500, tps))
     nticks = min(nticks, 150 * (int(wsm * tps) + 1))        # an event (almost) every tick: keep the JSON arrays of one line short (TLC's Json module is recursive in their length)
     params = parse_args_with_defaults({
-        "ticks_per_second": tps, "waiting_seconds_mean": wsm, "num_pipelines": rng.choice([1, 2, 4, 7]), "num_operators": rng.choice([1, 2, 5, 9]),
+        "ticks_per_second": tps, "waiting_seconds_mean": wsm, "num_pipelines": rng.choice([1, 2, 4, 7, 12]), "num_operators": rng.choice([1, 2, 5, 9]),
         "interactive_prob": ip, "query_prob": qp, "batch_prob": bp, "cpu_io_ratio": rng.choice([0.0, 0.1, 0.5, 0.9, 1.0]), "random_seed": rng.randrange(10**6)})
     gen = WorkloadGenerator(**params)
     log = []
